@@ -105,6 +105,7 @@ EXPECTED_PROBES = [
     "probe.wait_on_aborted_raised", "probe.close_all_with_active_connections", "probe.close_all_with_waiters",
     "probe.waiter_released_by_close_all", "probe.release_of_closed_connection",
     "probe.limit_raised_under_backlog", "probe.limit_lowered",
+    "probe.weighted_request", "probe.weighted_request_in_service", "probe.request_discarded_by_worker",
 ]
 SHRINK_SKIP = ("family", "klass", "kind")  # the shrinker may drop whole instances from "subs"
 SHRINK_BUDGET_S = {"quick": 20.0, "thorough": 60.0}
@@ -472,7 +473,7 @@ def gen_concurrency(rng):
     for i in range(n):
         ops = []
         for _ in range(rng.randint(1, 5)):
-            a = rng.randint(1, max(1, lim)) if kind == "weighted" else 1
+            a = rng.randint(1, max(1, lim)) if kind == "weighted" else rng.choice([1, 1, 1, 2, 3])
             ops += [{"op": "acq", "a": a}] + _hold(rng) + [{"op": "rel"}]
             r = rng.random()
             if kind == "dynamic" and r < 0.3:
@@ -486,14 +487,19 @@ def gen_concurrency(rng):
 
 
 def gen_server(rng):
-    """A real Server in front of a sink; a controller process raises / lowers a DynamicConcurrency limit mid-run."""
-    kind = rng.choice(["dynamic", "dynamic", "dynamic", "fixed"])
-    lim = rng.choice([1, 1, 2, 3])
+    """A real Server in front of a sink; requests carry weights; a controller raises / lowers a DynamicConcurrency limit."""
+    kind = rng.choice(["dynamic", "dynamic", "dynamic", "fixed", "int", "weighted", "weighted"])
+    lim = rng.choice([1, 1, 2, 3, 4])
     cfg = {"kind": kind, "limit": lim, "queue": rng.choice([None, None, None, 3, 8]),
            "service_ns": [rng.choice([0, 1 * MS, 2 * MS, 5 * MS, 5 * MS, 12 * MS, 30 * MS]) for _ in range(rng.randint(1, 4))]}
     n = rng.randint(3, 30)
-    reqs = [{"t": t} for t in sorted(_times(rng, n, rng.choice(["burst", "burst", "cluster", "two", "spread"])))]
+    heavy = rng.choice([0.0, 0.15, 0.4])
+    reqs = []
+    for t in sorted(_times(rng, n, rng.choice(["burst", "burst", "cluster", "two", "spread"]))):
+        wt = rng.randint(2, max(2, lim)) if rng.random() < heavy else 1
+        reqs.append({"t": t, "w": wt})
     workers = []
+    raise_only = rng.random() < 0.4
     if kind == "dynamic":
         cfg["lo"] = rng.choice([1, 1, min(2, lim)])
         cfg["hi"] = rng.choice([None, None, lim + 1, lim + 3])
@@ -501,9 +507,11 @@ def gen_server(rng):
             ops = []
             for _ in range(rng.randint(1, 6)):
                 ops.append({"op": "hold", "ns": rng.choice([0, 1 * MS, 2 * MS, 3 * MS, 5 * MS, 7 * MS, 20 * MS])})
-                ops.append({"op": "limit", "how": rng.choice(["set", "up", "up", "down"]), "to": rng.randint(0, 4)})
+                ops.append({"op": "limit", "how": "up" if raise_only else rng.choice(["set", "up", "up", "down"]), "to": rng.randint(0, 4)})
             workers.append({"t": rng.choice(T_CLUSTER), "ops": ops})
-    return {"family": "server", "klass": f"server/{kind}", "cfg": cfg, "workers": workers, "requests": reqs}
+    # avoidance classes for the discard-at-head findings: weighted without heavy requests; dynamic that only raises
+    klass = f"server/{kind}" + ("+weights" if heavy else "") + ("+raise-only" if kind == "dynamic" and raise_only else "")
+    return {"family": "server", "klass": klass, "cfg": cfg, "workers": workers, "requests": reqs}
 
 
 def gen_preemptible(rng):
